@@ -171,7 +171,8 @@ def HTS.step (tp : TParams) (s : HdS) (l : h4_HLbl) : HdS :=
 def HTS.run (tp : TParams) (s : HdS) (ls : List h4_HLbl) : HdS := ls.foldl (HTS.step tp) s
 
 /-- connections queued at acceptor `name` are valid channel ids (the C++ queue holds
-    `shared_ptr<channel>`) -/
+    `shared_ptr<channel>`). NOT a side condition: it is an invariant of the system
+    (`ConnsOk`, SimVerif/Lemmas/HandlersConns.lean), assumed of the initial table only. -/
 def accConnsOk (n : NetSt) (name : String) : Prop :=
   ∀ s a, n.tcp? name = some s → s.acc = some a → ∀ c ∈ a.conns, c < n.chans.length
 
@@ -179,8 +180,11 @@ def accConnsOk (n : NetSt) (name : String) : Prop :=
     * an initiating call is made on an object that exists (an accept on an acceptor);
     * `async_connect`: `assert(!m_connect_handler)` when the socket is already open;
     * the socket object a socket-returning accept creates is new; constructors create new objects;
-    * packets carry, and accept queues hold, valid channels;
-    * a connect timer's callback runs only for a handler that was bound into it. -/
+    * the packet the environment hands in carries no channel or a valid one (it can only deliver
+      packets that were sent, and a sent SYN / SYN-ACK carries an allocated channel id);
+    * a connect timer's callback runs only for a handler that was bound into it.
+    That accept queues hold valid channels is no longer assumed: it is preserved by every label
+    (`HL.cok_label`) and part of the invariant `h4_TInv`. -/
 def HTS.ok (s : HdS) : h4_HLbl → Prop
   | .newSock name _ _ => s.n.tcp? name = none
   | .connect _ name _ _ => ∃ s0, s.n.tcp? name = some s0 ∧ (s0.isOpen = true → s0.connectH = none)
@@ -188,9 +192,8 @@ def HTS.ok (s : HdS) : h4_HLbl → Prop
   | .waitRead name _ => (s.n.tcp? name).isSome
   | .write name _ => (s.n.tcp? name).isSome
   | .accept _ name op => (∃ s0, s.n.tcp? name = some s0 ∧ s0.acc.isSome)
-      ∧ (∀ h nn, op = .fresh h nn → s.n.tcp? nn = none) ∧ accConnsOk s.n name
-  | .accClose _ name => accConnsOk s.n name
-  | .incoming _ name p => accConnsOk s.n name ∧ ∀ c, p.chan = some c → c < s.n.chans.length
+      ∧ (∀ h nn, op = .fresh h nn → s.n.tcp? nn = none)
+  | .incoming _ _ p => ∀ c, p.chan = some c → c < s.n.chans.length
   | .refusedFired h => h ∈ s.parked
   | _ => True
 
